@@ -86,10 +86,18 @@ pub fn isolate<S: Serialize + Clone + Send + 'static>(
                     let step = crate::harness::CURRENT_STEP_SHARED.lock().map(|g| g.clone()).unwrap_or_default();
                     // leak the blocked thread
                     std::mem::forget(handle);
+                    if check == "c02" {
+                        // a call that never returns is C01's / C07's business, not a memory-safety report
+                        stats.probe("call_never_returned(ignored_for_C02)");
+                        return Ok(());
+                    }
+                    // streams with patches block inside pool tasks (finding F23): keep that apart
+                    let scenario = serde_json::to_value(sc).unwrap();
+                    let tag = if serde_json::to_string(&scenario).map(|j| j.contains("\"patches\":{")).unwrap_or(false) { "+patches" } else { "" };
                     return Err(Violation {
                         property: property.into(),
                         check: check.into(),
-                        class: format!("hang:{}", step.split(' ').next().unwrap_or("")),
+                        class: format!("hang:{}{tag}", step.split(' ').next().unwrap_or("")),
                         detail: format!("call never returned: thread blocked for more than {HANG_WALL_SECS}s without consuming CPU time during step `{step}`"),
                         seed,
                         scenario: serde_json::to_value(sc).unwrap(),
@@ -122,6 +130,14 @@ pub fn panic_class(loc: &str, msg: &str) -> String {
     }
     norm.truncate(70);
     format!("panic:{file}:{norm}")
+}
+
+pub fn strip_tags(class: &str) -> String {
+    let mut c = class.to_string();
+    for t in ["+vardct", "+patches", "+splines"] {
+        c = c.replace(t, "");
+    }
+    c
 }
 
 macro_rules! dispatch {
@@ -161,12 +177,15 @@ macro_rules! dispatch {
             match check {
                 $($name => {
                     let sc: $m::Scenario = serde_json::from_value(v.scenario.clone()).expect("scenario");
-                    let class = v.class.clone();
+                    // feature tags (+vardct, +patches, +splines) are not part of what must persist:
+                    // the minimiser may drop a feature that has nothing to do with the failure, and
+                    // the reported class is the one of the minimised scenario
+                    let class = strip_tags(&v.class);
                     let seed = v.seed;
                     let still = |cand: &$m::Scenario| -> Option<Violation> {
                         let mut st = Stats::default();
                         match isolate($prop, $name, seed, cand, &mut st, move |sc, st| $m::execute(seed, sc, st)) {
-                            Err(v2) if v2.class == class => Some(v2),
+                            Err(v2) if strip_tags(&v2.class) == class => Some(v2),
                             _ => None,
                         }
                     };
